@@ -216,6 +216,44 @@ func runTimepb(cfg *Cfg) {
 			}
 		}
 	}
+	// call histories: Add is a function of its arguments. The same call repeated, with the EARLIER RESULT modified by
+	// the caller in between (it is the caller's own value) and with other calls in between, must give the same
+	// answer every time; results of different calls share no memory.
+	for h := 0; h < 400; h++ {
+		s, ns := secPool[r.Intn(len(secPool))], nanoPool[r.Intn(len(nanoPool))]
+		ds, dn := int64(1+r.Intn(100000)), nanoPool[r.Intn(len(nanoPool))]
+		if r.Bool() {
+			ds, dn = -ds, -dn
+		}
+		line := fmt.Sprintf("tsadd %d %d %d %d", s, ns, ds, dn)
+		out.Case("history:"+line+fmt.Sprint(h), true)
+		out.Count("add_history_cases")
+		bad := ""
+		p, pm := guard(func() {
+			t := &tspb.Timestamp{Seconds: s, Nanos: ns}
+			d := &durpb.Duration{Seconds: ds, Nanos: dn}
+			r1 := timepb.Add(t, d)
+			want := [2]int64{r1.Seconds, int64(r1.Nanos)}
+			if h%2 == 0 {
+				_ = timepb.Add(&tspb.Timestamp{Seconds: s + 7, Nanos: ns}, d) // another call in between
+			}
+			r1.Seconds, r1.Nanos = r1.Seconds+3600, 1 // the caller edits ITS result
+			r2 := timepb.Add(&tspb.Timestamp{Seconds: s, Nanos: ns}, &durpb.Duration{Seconds: ds, Nanos: dn})
+			if r2.Seconds != want[0] || int64(r2.Nanos) != want[1] {
+				bad = fmt.Sprintf("the same Add gave {%d,%d} first and {%d,%d} after the caller had edited the first result", want[0], want[1], r2.Seconds, r2.Nanos)
+			}
+			r2.Nanos = 2
+			r3 := timepb.Add(t, d)
+			if bad == "" && (r3.Seconds != want[0] || int64(r3.Nanos) != want[1] || r3 == r2 || r3 == r1) {
+				bad = fmt.Sprintf("third identical Add gave {%d,%d}, first {%d,%d}", r3.Seconds, r3.Nanos, want[0], want[1])
+			}
+		})
+		if p {
+			out.Violate("C17", "add-history-panic", "Add panicked in a call history: "+firstLine(pm), line+" (history: Add, edit result, Add again)")
+		} else if bad != "" {
+			out.Violate("C17", "add-depends-on-history", bad, line+" (history: Add, edit result, Add again)")
+		}
+	}
 	if timepb.Add(nil, &durpb.Duration{Seconds: 1}) != nil || timepb.AddStd(nil, time.Second) != nil {
 		out.Violate("C17", "nil", "Add(nil) != nil", "tsadd nil")
 	}
